@@ -139,6 +139,9 @@ func (auth *Auth) Configure(config core.ServerConfig) error {
 		return errors.New("in strictmode the only valid irma-scheme-manager is 'pbdf'")
 	}
 
+	// strictMode is passed to the IAM client, which uses it to validate the URLs of remote endpoints
+	auth.strictMode = config.Strictmode
+
 	var err error
 	auth.publicURL, err = config.ServerURL()
 	if err != nil {
